@@ -4,6 +4,8 @@ import (
 	"bytes"
 	"encoding/json"
 	"fmt"
+	"io"
+	"net"
 	"net/http"
 	"strings"
 	"sync"
@@ -221,6 +223,7 @@ func sysC15(res *vlib.Result) {
 		name   string
 		args   []string // replaces the -ice / -url arguments when set
 		refuse bool
+		abort  bool // the SOCKS client resets its connections right after sending the request
 	}
 	deadBroker := freeAddr()
 	cases := []ccase{
@@ -230,6 +233,7 @@ func sysC15(res *vlib.Result) {
 		{name: "broker-unreachable", args: []string{"-url", "http://" + deadBroker + "/"}},
 		{name: "broker-refusing", refuse: true},
 		{name: "healthy"},
+		{name: "socks-aborted", abort: true},
 	}
 	var wg sync.WaitGroup
 	for ci := range cases {
@@ -254,6 +258,52 @@ func sysC15(res *vlib.Result) {
 			res.Distinct(cc.name)
 			if err != nil {
 				res.Violate("c15:client-binary-did-not-start:"+cc.name, fmt.Sprintf("client with %v: %v", cc.args, err), rec)
+				return
+			}
+			if cc.abort {
+				// six SOCKS requests, each reset (linger 0) before the reply is read: the
+				// SOCKS connections are gone at once, so whatever the client started for
+				// them must stop
+				for k := 0; k < 6; k++ {
+					ac, err := net.DialTimeout("tcp", socks, 5*time.Second)
+					if err != nil {
+						res.Inconcl(cc.name + ": socks dial: " + err.Error())
+						return
+					}
+					ac.Write([]byte{5, 1, 0})
+					var r2 [2]byte
+					io.ReadFull(ac, r2[:])
+					ac.Write([]byte{5, 1, 0, 1, 0, 0, 3, 1, 0, 80})
+					if tc, ok := ac.(*net.TCPConn); ok {
+						tc.SetLinger(0)
+					}
+					ac.Close()
+					time.Sleep(200 * time.Millisecond)
+				}
+				res.Obs("socks_requests_aborted", 6)
+				time.Sleep(3 * time.Second) // an attempt already in flight may complete
+				if !cl.alive() {
+					rec["panics"] = s.panicLines()
+					res.Violate("c15:client-process-terminated:"+cc.name, "client exited after its SOCKS connections were reset", rec)
+					return
+				}
+				res.Obs("clients_alive_after_failing_rendezvous", 1)
+				p1 := atomic.LoadInt64(&bf.clientPolls)
+				time.Sleep(25 * time.Second)
+				p2 := atomic.LoadInt64(&bf.clientPolls)
+				if p2-p1 > 1 {
+					rec["polls_after_close"] = p2 - p1
+					res.Violate("c15:rendezvous-continues-after-socks-close:"+cc.name, fmt.Sprintf("%d client polls reached the broker in the 25 s after every SOCKS connection had been reset", p2-p1), rec)
+				} else {
+					res.Obs("clients_quiet_after_socks_close", 1)
+				}
+				cl.signal(syscall.SIGTERM)
+				select {
+				case <-cl.exited:
+					res.Obs("clients_ended_by_sigterm", 1)
+				case <-time.After(15 * time.Second):
+					res.Violate("c15:client-ignores-sigterm:"+cc.name, "client still running 15 s after SIGTERM", rec)
+				}
 				return
 			}
 			c, err := socksConnect(socks)
@@ -295,6 +345,7 @@ func sysC15(res *vlib.Result) {
 	wg.Wait()
 	res.Sample(1, map[string]interface{}{"cases": len(cases)})
 	res.RequireObs("clients_alive_after_failing_rendezvous", int64(len(cases)-1))
+	res.RequireObs("socks_requests_aborted", 6)
 	res.RequireObs("clients_quiet_after_socks_close", 3)
 	res.RequireObs("clients_ended_by_sigterm", 3)
 }
